@@ -15,9 +15,9 @@ Fixpoint down_n (n : nat) (x : float) : float := match n with O => x | S k => do
 Definition perturb (j : Z) (x : float) : float :=
   match j with
   | 0 => x | 1 => up_n 1 x | 2 => up_n 2 x | 3 => down_n 1 x | 4 => down_n 2 x
-  | 5 => (x + 1e-12)%float | 6 => (x - 1e-12)%float
-  | 7 => (x + 5e-13)%float | 8 => (x - 5e-13)%float
-  | 9 => (x + 1e-13)%float | _ => (x - 1e-13)%float
+  | 5 => (x + 0x1.19799812dea11p-40)%float | 6 => (x - 0x1.19799812dea11p-40)%float
+  | 7 => (x + 0x1.19799812dea11p-41)%float | 8 => (x - 0x1.19799812dea11p-41)%float
+  | 9 => (x + 0x1.c25c268497682p-44)%float | _ => (x - 0x1.c25c268497682p-44)%float
   end.
 Definition n_perturb : Z := 11.
 
@@ -43,11 +43,13 @@ Definition famA (i : Z) : float :=
 
 (* family B: neighbourhoods of 0 and of +-360, former trouble spots *)
 Definition famB_list : list float :=
-  let pos := [0; 0x0.0000000000001p-1022; 1e-300; 1e-20; 1e-13; 1e-12; 1e-11; 1e-9; 2.7e-9;
-              0x1.74e1a3f0b2c5ap-29 (* 1e-5 arcsec *); 0x1.11111111110c6p-6; 0.5; 0.009; 0.9999999999999;
-              13.9999999999999; 13.51234; 42.75; 138.75; 23.44694444; 344.99999999999994; 345;
-              359.9999999999; 359.999999999999;
-              0x1.67fffffffffffp+8; 0x1.67ffffffffffep+8; 0x1.67ffffffffffdp+8; 0x1.67ffffffffffcp+8]%float in
+  let pos := [0; 0x0.0000000000001p-1022; 0x1.56e1fc2f8f359p-997; 0x1.79ca10c924223p-67;
+              0x1.c25c268497682p-44; 0x1.19799812dea11p-40; 0x1.5fd7fe1796495p-37; 0x1.12e0be826d695p-30;
+              0x1.7315cdfce0816p-29; 0x1.74e1a3f0b2c5ap-29; 0x1.11111111110c6p-6; 0x1.0000000000000p-1;
+              0x1.26e978d4fdf3bp-7; 0x1.ffffffffffc7bp-1; 0x1.bffffffffffc8p+3; 0x1.b06516db0dd83p+3;
+              0x1.5600000000000p+5; 0x1.1580000000000p+7; 0x1.7726af368edd5p+4; 0x1.58fffffffffffp+8;
+              0x1.5900000000000p+8; 0x1.67ffffffff921p+8; 0x1.67fffffffffeep+8; 0x1.67fffffffffffp+8;
+              0x1.67ffffffffffep+8; 0x1.67ffffffffffdp+8; 0x1.67ffffffffffcp+8]%float in
   pos ++ map PrimFloat.opp pos.
 Definition n_famB : Z := 54.
 
@@ -174,10 +176,11 @@ Definition sec_value (p : printed) : Q := (inject_Z p.(p_smant) * Qpow10 p.(p_se
 (* never 60 (or more) in minutes or seconds *)
 Definition chk_no60 (p : printed) : bool := (p.(p_m) <? 60) && negb (Qle_bool 60 (sec_value p)).
 
-(* degrees < 360 ; hours <= 24, and 24 only as 24h 0' 0.0'' (a whole turn) *)
+(* the leading field is below a whole turn (360 degrees / 24 h), or the print is exactly the whole
+   turn (minutes and seconds zero), which reads back to 0 modulo a turn *)
 Definition chk_lead (ra : bool) (p : printed) : bool :=
-  if ra then (p.(p_d) <? 24) || ((p.(p_d) =? 24) && (p.(p_m) =? 0) && (p.(p_smant) =? 0))
-  else p.(p_d) <? 360.
+  let top := if ra then 24 else 360 in
+  (p.(p_d) <? top) || ((p.(p_d) =? top) && (p.(p_m) =? 0) && (p.(p_smant) =? 0)).
 
 (* the sign exactly once, on the leading non-zero field (none for a positive value or an all-zero print) *)
 Definition chk_sign (x : float) (p : printed) : bool :=
